@@ -264,3 +264,66 @@ Lemma rds_exact_simple fa v : no_inner_empty (segs v) -> rds_exact fa v.
 Proof. intros H. split; [intros Hh; exfalso; exact (no_inner_A _ _ H Hh) | apply no_inner_B, H]. Qed.
 Theorem rds_impl_exact fa v : rds_exact fa v -> rds_impl false fa v = rds v.
 Proof. intros [HA HB]. now apply rds_impl_is_rds. Qed.
+
+(* ---------- C09: what the in-place normalisation writes ---------- *)
+Definition shield_segs (start0 fa : bool) (v : str) : list seg :=
+  if shield_of start0 fa (is_abs v) (join (norm (is_abs v) (segs v))) then [[DOT]] else [].
+Theorem normalize1_is_render start0 fa v :
+  normalize1 start0 fa v = render (is_abs v) (shield_segs start0 fa v ++ norm (is_abs v) (segs v)).
+Proof.
+  unfold normalize1, shield_segs, render, clear1.
+  destruct (shield_of start0 fa (is_abs v) (join (norm (is_abs v) (segs v)))) eqn:E; [|reflexivity].
+  f_equal. destruct (norm (is_abs v) (segs v)) as [|s r]; [discriminate E | reflexivity].
+Qed.
+Theorem normalize1_abs start0 fa v : is_abs (normalize1 start0 fa v) = is_abs v.
+Proof.
+  unfold normalize1, clear1. destruct (is_abs v) eqn:E; [cbn [app is_abs]; unfold is; apply N.eqb_refl|].
+  cbn [app]. pose proof (join_head _ (norm_noslash false _ (segs_noslash v))) as Hh.
+  unfold shield_of. destruct (join (norm false (segs v))) as [|c r]; [reflexivity|].
+  cbn [starts_slash] in Hh. destruct (is c SLASH) eqn:Ec.
+  - cbn [negb orb]. cbn [is_abs]. reflexivity.
+  - cbn [negb andb]. destruct (start0 && colon_first (c :: r)); cbn [is_abs]; [reflexivity | exact Ec].
+Qed.
+
+(* ---------- C04: in-place normalisation keeps the path well-formed in its context ---------- *)
+Lemma none_of_join D l : ~ In SLASH D -> Forall (none_of D) l -> none_of D (join l).
+Proof.
+  intros HS H. induction H as [|s l Hs Hl IH]; [constructor|]. destruct l as [|t r]; [exact Hs|].
+  change (join (s :: t :: r)) with (s ++ SLASH :: join (t :: r)). apply Forall_app. split; [exact Hs|]. constructor; [exact HS | exact IH].
+Qed.
+Lemma segs_none_of D v : none_of D v -> Forall (none_of D) (segs v).
+Proof.
+  intros H. unfold segs. destruct v as [|c r]; [constructor|]. destruct (is c SLASH).
+  - destruct r; [constructor|]. apply split_forall. now inversion H.
+  - now apply split_forall.
+Qed.
+Lemma norm_none_of D ab l : Forall (none_of D) l -> Forall (none_of D) (norm ab l).
+Proof. intros H. apply Forall_forall. intros x Hx. apply norm_sub in Hx. rewrite Forall_forall in H. auto. Qed.
+
+Theorem normalize1_wf hs ha v : wf_path_in hs ha v -> wf_path_in hs ha (normalize1 (negb hs && negb ha) ha v).
+Proof.
+  intros [W1 W2 W3 W4].
+  assert (Hsl : ~ In SLASH [QM; HASH]) by (simpl; unfold SLASH, QM, HASH; intros [E|[E|[]]]; discriminate).
+  assert (Hdt : ~ In DOT [QM; HASH]) by (simpl; unfold DOT, QM, HASH; intros [E|[E|[]]]; discriminate).
+  pose proof (join_head _ (norm_noslash (is_abs v) _ (segs_noslash v))) as Hh.
+  assert (HJ : none_of [QM; HASH] (join (norm (is_abs v) (segs v)))) by (apply none_of_join; [exact Hsl | apply norm_none_of, segs_none_of, W1]).
+  unfold normalize1. set (J := join (norm (is_abs v) (segs v))) in *. unfold shield_of.
+  constructor.
+  - apply Forall_app. split; [unfold clear1; destruct (is_abs v); repeat constructor; exact Hsl|].
+    destruct J as [|c r]; [constructor|]. destruct (if is c SLASH then _ else _); [constructor; [exact Hdt | constructor; [exact Hsl | exact HJ]] | exact HJ].
+  - intros E. destruct (W2 E) as [->|(t & ->)]; [left; reflexivity | right].
+    unfold clear1. cbn [is_abs]. change (is SLASH SLASH) with true. cbn [app]. eauto.
+  - intros E t. subst ha. unfold clear1. destruct (is_abs v) eqn:Ea; cbn [app negb orb andb].
+    + destruct J as [|c r]; [discriminate|]. cbn [starts_slash] in Hh. destruct (is c SLASH) eqn:Ec.
+      * unfold DOT, SLASH. intros Ht. injection Ht as Ht _. discriminate.
+      * intros Ht. injection Ht as Ht _. subst c. discriminate Ec.
+    + destruct J as [|c r]; [discriminate|]. cbn [starts_slash] in Hh. destruct (is c SLASH) eqn:Ec.
+      * unfold DOT, SLASH. intros Ht. injection Ht as Ht _. discriminate.
+      * destruct (negb hs && true && colon_first (c :: r)); [unfold DOT, SLASH; intros Ht; injection Ht as Ht _; discriminate|].
+        intros Ht. injection Ht as Ht _. subst c. discriminate Ec.
+  - intros E1 E2. subst hs ha. unfold clear1. destruct (is_abs v) eqn:Ea; cbn [app negb orb andb].
+    + cbn [nocolon_first]. change (is SLASH SLASH) with true. reflexivity.
+    + destruct J as [|c r] eqn:EJ; [reflexivity|]. cbn [starts_slash] in Hh. destruct (is c SLASH) eqn:Ec.
+      * reflexivity.
+      * destruct (colon_first (c :: r)) eqn:Ecf; [reflexivity|]. rewrite nocolon_is_not_colon, Ecf. reflexivity.
+Qed.
